@@ -13,13 +13,16 @@
 (*                            1 if the loop ran every due timer on time     *)
 (*   req   : c t              connection c calls take_tokens()   (Exact)    *)
 (*   sleep : c t g b a        it found the bucket empty and sleeps (Exact)  *)
-(*   grant : c t n cnt g rcur reqt b a                                      *)
+(*   grant : c t n cnt g rcur reqt gt b a                                   *)
 (*                            take_tokens() returned; n bytes in cnt        *)
 (*                            back-to-back calls of c at the same reading;  *)
 (*                            g = limiter object (1 = first, +1 per change) *)
 (*                            rcur = that object was the configured one     *)
 (*                            when the call was made; reqt = time of the    *)
-(*                            (first) call; b, a = bucket / age afterwards  *)
+(*                            (first) call; gt = time it returned (t is the *)
+(*                            time the bytes moved: later than gt when      *)
+(*                            receive_file had to wait for data);           *)
+(*                            b, a = bucket / age afterwards                *)
 (*   cancel: c t              the task inside take_tokens() of c was cancelled  *)
 (*   set   : t k b a          set_*_speed_limit(k); b, a of the new object  *)
 (*   end   : t w k            end of the run; w = longest time a still      *)
@@ -47,9 +50,12 @@ T == Traces[tid]
 Rec == T[l]
 NConns == T[1].n
 Jit == T[1].jit
-\* each request returns within one second per connection sharing the limiter (see NoStall /
-\* BoundedBypass in the design spec: (BypassBound + 1) * StallBound with the real constants)
-WaitBound == NConns * TPS + Jit
+\* B(L, n): each request returns within, per connection sharing the limiter (itself and at most
+\* n - 1 requests in front of it), twice the time its chunk takes at the configured rate plus an
+\* eighth of a second for the granularity of polling and scheduling.  (Design spec, NoStall /
+\* BoundedBypass: (BypassBound + 1) * StallBound; with the real constants one grant takes at most
+\* 176 ticks at 1 KiB/s and 22 ticks from 12 KiB/s on; the bound below is 384 resp. <= 149.)
+WaitBoundOf(k) == NConns * ((2 * Min) \div k + TPS \div 8) + Jit
 
 NoExpect == [ev |-> "none"]
 
@@ -99,12 +105,13 @@ PGrant ==
   /\ gens' = [gens EXCEPT ![Rec.g] = Lim(Rec.g, Rec.b, Rec.a)]
   \* a call made under a limit that has been replaced since is accounted to the replaced limiter:
   \* one call of one chunk per connection and replaced limiter object, nothing more
-  /\ LET inflight == /\ Rec.g < CurIdx /\ Rec.rcur /\ Rec.cnt = 1 /\ Rec.n <= Min
-                      /\ gens[Rec.g].k # 0 /\ <<Rec.c, Rec.g>> \notin used
+  /\ LET inflight == /\ Rec.g < CurIdx /\ Rec.rcur /\ Rec.cnt = 1
+                      /\ Rec.n <= (IF gens[Rec.g].k = 0 THEN UMin ELSE Min)
+                      /\ <<Rec.c, Rec.g>> \notin used
      IN /\ acct' = IF inflight THEN acct ELSE AcctGrant(acct, Cur.k, Rec.n)
         /\ used' = IF inflight THEN used \cup {<<Rec.c, Rec.g>>} ELSE used
   /\ last' = [ev |-> "grant", c |-> Rec.c, n |-> Rec.n, g |-> Rec.g,
-              waited |-> Rec.t - Rec.reqt, k |-> gens[Rec.g].k]
+              waited |-> Rec.gt - Rec.reqt, k |-> gens[Rec.g].k]
   /\ UNCHANGED <<pc, on, rem, queue, since, bypass, changes, cancels, stuck, now, expect>>
   /\ Consume
 
@@ -217,5 +224,5 @@ GrantsPositiveT == last.ev = "grant" => last.n > 0
 UnlimitedNotThrottledT == (last.ev \in {"grant", "pending"} /\ last.k = 0) => last.waited <= Jit
 
 \* (only when the recording loop was timely: every due poll ran before the clock moved on)
-BoundedWaitT == (T[1].timely = 1 /\ last.ev \in {"grant", "pending"} /\ last.k # 0) => last.waited <= WaitBound
+BoundedWaitT == (T[1].timely = 1 /\ last.ev \in {"grant", "pending"} /\ last.k # 0) => last.waited <= WaitBoundOf(last.k)
 =============================================================================
